@@ -37,7 +37,8 @@ def main():
         subprocess.check_call(['git', '-C', '/repo', 'worktree', 'add', '--detach', wt, 'HEAD'],
                               stdout=subprocess.DEVNULL, stderr=subprocess.DEVNULL)
         subprocess.check_call(['git', '-C', wt, 'apply', patch])
-        shutil.copytree(os.environ.get('VERIF_LEAN_DIR') or os.path.join(ROOT, 'lean'), lean, symlinks=True)
+        shutil.copytree(os.environ.get('VERIF_LEAN_DIR') or os.path.join(ROOT, 'lean'), lean, symlinks=True,
+                        ignore=shutil.ignore_patterns('*.tmp', '*.tmp.*', '*.lock'), ignore_dangling_symlinks=True)
         env = dict(os.environ, LADYBUG_REPO=wt, VERIF_LEAN_DIR=lean, VERIF_SEED=a.seed,
                    VERIF_EVIDENCE_DIR=os.path.join(tmp, 'evidence'))
         p = subprocess.run([os.path.join(ROOT, 'check'), a.prop, '--tier', a.tier], env=env,
